@@ -593,15 +593,11 @@ fn parse_after_attr_final(input: Span<'_>) -> IResult<Span<'_>, ParseEvents<'_>>
 fn parse_init(input: Span<'_>) -> IResult<Span<'_>, (ParseEvents<'_>, Option<StateChange>)> {
     alt((
         map(string_literal, |s| (ReadEvent::TextValue(s).single(), None)),
-        map(complete::identifier_or_bool, |v| {
-            (identifier_event(v).single(), None)
-        }),
-        map(complete::numeric_literal, |l| {
-            (ReadEvent::Number(l).single(), None)
-        }),
-        map(complete::blob, |data| {
-            (ReadEvent::Blob(data).single(), None)
-        }),
+        // Streaming token parsers: a token that reaches the end of the available input may continue in the
+        // next chunk (the final segment parser completes it at the end of the input).
+        map(identifier_or_bool, |v| (identifier_event(v).single(), None)),
+        map(numeric_literal, |l| (ReadEvent::Number(l).single(), None)),
+        map(blob, |data| (ReadEvent::Blob(data).single(), None)),
         map(secondary_attr, |(e, c)| (e, Some(c))),
         map(char_str::char('{'), |_| {
             (
